@@ -204,7 +204,7 @@ CONFIG = {
         "OCI: AutoGC off, GC never called (C09 owns F1-F4); index.json / saveIndex persistence not modelled (C08, C10); invalid digest strings are not generated (blobPath -> ErrInvalidDigest); Store.delete's re-listing of dangling manifests without a digest entry (754da6c) is not modelled: on a store built by Push every stored manifest has its digest entry (invariant qdig of C06_quiescent_serialisable_oci_full), so the loop is a no-op there",
         "file store: a path is identified with the clean relative name it came from except one aliasing name and one traversing name of the universe (symlinks, real path resolution: C11); restoreDuplicates / restoreDuplicatesOfSkipped with titled successors are modelled sequentially (file_restore); the fallback push limit (NewWithFallbackLimit -> content.LimitedStorage.Push refuses expected.Size > limit before anything is read) is modelled as file_step_lim (Model/StoresFileLimit.v) and run as store kind fileL0 with limit 400; the fixed 4 MiB guard of restoreDuplicatesOfSkipped (IgnoreNoName) is not reached by the generated sizes; pushDir/unpack, Add, Close, ForceCAS/SkipUnpack/PreservePermissions are not modelled; annotation-set ids are numbered so that id/8 is the title",
         "concurrency theorem: sync.Map Load/LoadOrStore, the resolver RWMutex section and the graph lock section are the atomic steps (Go memory model / scheduler: modelled, not verified); proved for the memory store and (content map, all Resolve answers, Predecessors; Delete exclusive; collision-free universe B) for the OCI store; for the file store the per-name lock section of a named push is one atomic step (the window between digestToPath.Store and exists := true, in which readers of that name block on the status lock, is not modelled), store and graph.Index are separate steps, content is untitled and names do not alias; C06_reads_linearisable_* treat Fetch/Exists/Resolve as one atomic read (the real file-store Fetch reads name status, digestToPath and the file one after the other -- all monotone without Delete)",
-        "order of effects inside the modelled functions (store before index before restore, stat before ingest before rename, untag before graph.Remove before storage.Delete, Load/ReadAll/LoadOrStore and no plain Store, name status before digestToPath before fallback ...): re-read from the Go sources on every run by translator kind c06_callseq (19 functions) and checked by C06_call_order_from_source (40 order facts); the bodies of 61 functions are anchored (any edit fails layer T until re-baselined)",
+        "order of effects inside the modelled functions (store before index before restore, stat before ingest before rename, untag before graph.Remove before storage.Delete, Load/ReadAll/LoadOrStore and no plain Store, name status before digestToPath before fallback ...): re-read from the Go sources on every run by translator kind c06_callseq (19 functions) and checked by C06_call_order_from_source (40 order facts); the guards of the limit refusal (`expected.Size > ls.PushLimit`, fallback reached for `name == \"\"` only) are regenerated by translator kind callguards and checked by C06_limit_guards_from_source; the bodies of 61 functions are anchored (any edit fails layer T until re-baselined)",
         "Predecessors results are compared as sets projected to descriptor.FromOCI (media type, digest, size); Tags compared sorted; after every sequential history on the OCI and file stores the regular files on disk (blob files / files below the working directory: path, digest of the bytes, length; left-over ingest files) are compared with the model's o_blobs / f_disk (not after a second name overwrote a file: known finding file-name-alias-overwrite)",
     ],
     "level_text": "Coq theorems over all operation histories: the memory store (cas.Memory + resolver.Memory{index,tags} + graph.Memory{nodes,predecessors,successors}) and the OCI layout store (blobs by digest + implicit tag-by-digest + Resolve/resolveBlob fallback + Untag + Delete without AutoGC + Tags) refine an abstract content map + tag map (equal outputs, equal maps, Predecessors = stored manifests whose successor list contains the node); a refused or failed operation leaves the whole concrete state unchanged; Fetch returns exactly the pushed bytes, re-push is already-exists and a no-op, Resolve returns the most recent Tag, absent content is not-found, Delete clears content and names; the Delete loop is independent of Go's map iteration order; file store: no Fetch returns bytes not matching the digest, failed operations are no-ops on the repaired code (refuted with a witness on the code as found), duplicate-name; every interleaving of the atomic steps of the memory store, of the OCI store (Delete exclusive) and of the file store (untitled content, no aliasing name) reaches at quiescence the state -- content, tags and Predecessors -- of a sequential order that keeps program order, and at EVERY reachable configuration Fetch/Exists/Resolve (and the names OCI Tags lists: C06_tags_linearisable_oci) answer like the sequential execution of the commit log (C06_reads_linearisable_memory/_oci/_file); the accept/refuse decision of a Push is the sequential one at every reachable configuration of the memory and file stores (C06_push_decision_linearisable_memory/_file; refuted for OCI); presence in the file store is monotone for every history and option setting (C06_presence_monotone_file); file store with a fallback push limit: exactly the oversized unnamed pushes are refused and the refusal is a no-op (C06_limit_refusal_iff_file, C06_limit_refusal_noop_file), nothing above the limit is ever in the fallback storage for EVERY history and option setting (C06_limit_bounds_fallback_file), refinement and fetch-matches carry over (C06_refines_file_limit, C06_fetch_matches_digest_file_limit), and below the limit it is unobservable (C06_limit_unobservable_below_file); the file store refines an abstract content-map specification on every history without an aliasing name (C06_refines_file: equal outputs step by step; restoreDuplicates included) and its Predecessors are exactly the indexed nodes whose bytes list the node (C06_predecessors_exact_file). Tied to the code by differential runs of random histories (three store kinds, option matrix, concurrent goroutines with a serialisability search on the extracted model) and an independent reference oracle",
